@@ -180,6 +180,110 @@ theorem find?_unique {β : Type} {l : List β} {p : β → Bool} {x : β} (hx : 
   | none => exact absurd hp (by simpa using List.find?_eq_none.mp h x hx)
   | some y => rw [huniq y (List.mem_of_find?_eq_some h) (List.find?_some h)]
 
+/-! ### no best-list entry is lost, no quantity is without a store -/
+
+theorem bestOfBuilt_entries (units : List (Unit α)) (l : List (α × Nat)) (h : ∀ e, e ∈ l → ∃ u, units[e.2]? = some u) :
+    (bestOfBuilt units l).entries.map (fun e => (e.1, e.2.id)) = l := by
+  induction l with
+  | nil => rfl
+  | cons e l ih =>
+    obtain ⟨u, hu⟩ := h e (by simp)
+    have := ih (fun x hx => h x (by simp [hx]))
+    simp only [bestOfBuilt, List.filterMap_cons, hu, Option.map_some, List.map_cons, unitOfBuilt_id] at this ⊢
+    rw [this]
+
+theorem bridge_best_found [Arith α] {conv : Converter α} (hok : BuiltOK conv) (q : PhysQ) :
+    ∃ st, (pqTo q, st) ∈ conv.best ∧ bestOfQuantity conv q = storeOfBuilt conv.units st := by
+  have hmem : pqTo q ∈ conv.best.map (·.1) := by rw [hok.best_keys]; exact PQ.mem_all _
+  obtain ⟨e, he, heq⟩ := List.mem_map.mp hmem
+  unfold bestOfQuantity
+  split
+  · rename_i e' he'
+    have hq : e'.1 = pqTo q := by simpa using List.find?_some he'
+    refine ⟨e'.2, ?_, rfl⟩
+    rw [← hq]; exact List.mem_of_find?_eq_some he'
+  · rename_i hnone
+    exact absurd heq (by simpa using List.find?_eq_none.mp hnone e he)
+
+/-- in the translation of a built converter the best list of every quantity and system is a list of that quantity's
+    store, entry by entry (thresholds and ids), and it is not empty -/
+theorem bridge_best_entries [Arith α] {conv : Converter α} (hok : BuiltOK conv) (q : PhysQ) (s : System) :
+    ∃ st l, (pqTo q, st) ∈ conv.best ∧ (∀ P, st.AllLists P → P l) ∧ l ≠ [] ∧
+      ((convOfBuilt conv).best q).conversions s = bestOfBuilt conv.units l ∧
+      (((convOfBuilt conv).best q).conversions s).entries.map (fun e => (e.1, e.2.id)) = l := by
+  obtain ⟨st, hst, heq⟩ := bridge_best_found hok q
+  have key : ∀ l, (∀ P, st.AllLists P → P l) → (storeOfBuilt conv.units st).conversions s = bestOfBuilt conv.units l →
+      ∃ st l, (pqTo q, st) ∈ conv.best ∧ (∀ P, st.AllLists P → P l) ∧ l ≠ [] ∧
+        ((convOfBuilt conv).best q).conversions s = bestOfBuilt conv.units l ∧
+        (((convOfBuilt conv).best q).conversions s).entries.map (fun e => (e.1, e.2.id)) = l := by
+    intro l hall hl
+    obtain ⟨hne, hunits⟩ := hall _ (hok.best_units _ _ hst)
+    have e1 : ((convOfBuilt conv).best q).conversions s = bestOfBuilt conv.units l := by
+      show (bestOfQuantity conv q).conversions s = _
+      rw [heq, hl]
+    refine ⟨st, l, hst, hall, hne, e1, ?_⟩
+    rw [e1]
+    exact bestOfBuilt_entries conv.units l (fun e he => by obtain ⟨u, hu, _⟩ := hunits e he; exact ⟨u, hu⟩)
+  cases st with
+  | unified l => exact key l (fun P hP => hP) rfl
+  | bySystem m i =>
+    cases s with
+    | metric => exact key m (fun P hP => hP.1) rfl
+    | imperial => exact key i (fun P hP => hP.2) rfl
+
+theorem bridge_best_nonempty [Arith α] {conv : Converter α} (hok : BuiltOK conv) (q : PhysQ) (s : System) :
+    (((convOfBuilt conv).best q).conversions s).entries ≠ [] := by
+  obtain ⟨_, l, _, _, hne, _, hmap⟩ := bridge_best_entries hok q s
+  intro h0
+  rw [h0] at hmap
+  exact hne hmap.symm
+
+/-! ### the metadata view -/
+
+/-- `SM.convOfBuilt` is the view `src/metadata.rs` takes (`SM.viewOf`) of the translated converter: the same units in
+    the same order, and `find_unit` gives the same unit identity for every name. -/
+theorem bridge_views_agree [Arith α] {conv : Converter α} (hok : BuiltOK conv) :
+    (SM.convOfBuilt conv).units = (SM.viewOf (convOfBuilt conv)).units ∧
+    ∀ k, (SM.convOfBuilt conv).index k = (SM.viewOf (convOfBuilt conv)).index k := by
+  constructor
+  · apply List.ext_getElem?
+    intro i
+    simp only [SM.convOfBuilt, SM.viewOf, List.getElem?_map, allUnits_getElem?, Option.map_map]
+    cases conv.units[i]? with
+    | none => rfl
+    | some u =>
+      simp only [Option.map_some, Function.comp, unitOfBuilt_pq, unitOfBuilt_ratio, Option.some.injEq]
+      have : decide (u.quantity = PQ.time) = decide (pqOf u.quantity = PhysQ.time) := by
+        cases u.quantity <;> rfl
+      rw [this]; rfl
+  · intro k
+    show idxGet conv.index k = ((convOfBuilt conv).findUnit k).map (·.id)
+    cases hk : idxGet conv.index k with
+    | some id =>
+      obtain ⟨u, hu, hku⟩ := hok.index_sound k id hk
+      have hx : unitOfBuilt id u ∈ (convOfBuilt conv).allUnits := (mem_allUnits conv _).mpr ⟨id, u, hu, rfl⟩
+      have : (convOfBuilt conv).findUnit k = some (unitOfBuilt id u) := by
+        unfold Cook.Converter.findUnit
+        refine find?_unique hx (by simpa using hku) ?_
+        intro y hy hky
+        obtain ⟨j, v, hv1, rfl⟩ := (mem_allUnits conv y).mp hy
+        have hkv : k ∈ v.keys := by simpa using hky
+        have := hok.keys_unique hu hv1 hku hkv
+        subst this
+        rw [hu] at hv1; cases hv1; rfl
+      rw [this]; rfl
+    | none =>
+      cases hf : (convOfBuilt conv).findUnit k with
+      | none => rfl
+      | some y =>
+        exfalso
+        have hy := List.mem_of_find?_eq_some hf
+        have hky := List.find?_some hf
+        obtain ⟨j, v, hv1, rfl⟩ := (mem_allUnits conv y).mp hy
+        have hkv : k ∈ v.keys := by simpa using hky
+        rw [hok.index j v k hv1 hkv] at hk
+        cases hk
+
 /-! ### `Sound` -/
 
 /-- **The bridge.**  The translation of a built converter all of whose units have a non-zero ratio and a key is sound
